@@ -97,6 +97,10 @@ func C02(prev, cur *ledger.Ledger, blk *hist.Block, wrapped Allowance) []Finding
 			if v, ok := eventAttr(*blk, "block_rewards", DelegationPool); ok {
 				if a, ok := new(big.Int).SetString(strings.TrimSpace(v), 10); ok {
 					allow.Add(allow, a)
+					// (what accrues under the schedule comes out of the rewards pool: never more than it holds)
+					if pool := amountAt(blk.Prev, "b_0lt726577617264706f6f6c_OLT"); a.Cmp(pool) > 0 {
+						out = append(out, Finding{"C02", "C02/increase/OLT/delegation-rewards-beyond-the-rewards-pool", fmt.Sprintf("block %d: %s of delegation rewards accrued in the block, the rewards pool holds %s", blk.H, a, pool)})
+					}
 				}
 			}
 		}
